@@ -409,7 +409,7 @@ func driveC20(c *driverCtx) error {
 	useAll(c, rs, "0-unregistered")
 	// step 1: first registrations
 	register("CEmail")
-	registerSchema("CEmail", `"string"`)
+	registerSchema("CEmail", `{"type":"string","logicalType":"email"}`) // an annotated primitive: the annotation is part of the registered schema
 	register("CCelsius")
 	registerSchema("CCelsius", `"double"`)
 	register("CTags")
